@@ -31,3 +31,329 @@ fn c01_vec_compare_contract() {
     kani::cover!(la != lb, "different-length case exists");
     vec_compare(&a[..la], &b[..lb]);
 }
+
+// ---------------------------------------------------------------- C13 / C23: the range hasher under Kani
+// Stubs (see DESIGN 1.2): threads and channels cannot be compiled by Kani 0.68; paths that reach them are cut
+// (assume(false)) - i.e. only the "range fits into one read buffer" path is verified.  Hasher::update appends to a log,
+// Hasher::finalize returns a constant: the contract is stated on the bytes FED to the hasher.
+use std::panic as sp;
+use std::sync::mpsc::{Receiver, Sender};
+fn stub_catch<F: FnOnce() -> R + std::panic::UnwindSafe, R>(f: F) -> std::thread::Result<R> {
+    Ok(f())
+}
+fn stub_channel<T>() -> (Sender<T>, Receiver<T>) {
+    kani::assume(false);
+    unreachable!()
+}
+fn stub_send<T>(_s: &Sender<T>, _t: T) -> std::result::Result<(), std::sync::mpsc::SendError<T>> {
+    kani::assume(false);
+    unreachable!()
+}
+fn stub_recv<T>(_s: &Receiver<T>) -> std::result::Result<T, std::sync::mpsc::RecvError> {
+    kani::assume(false);
+    unreachable!()
+}
+fn stub_finalize(_h: Hasher) -> Vec<u8> {
+    vec![1u8]
+}
+fn stub_spawn<F, T>(_b: std::thread::Builder, _f: F) -> std::io::Result<std::thread::JoinHandle<T>>
+where
+    F: FnOnce() -> T + Send + 'static,
+    T: Send + 'static,
+{
+    kani::assume(false);
+    unreachable!()
+}
+
+const CAP: usize = 64;
+static mut LOG: [u8; CAP] = [0u8; CAP];
+static mut LOG_LEN: usize = 0;
+fn stub_update(_h: &mut Hasher, data: &[u8]) {
+    unsafe {
+        let mut i = 0;
+        while i < data.len() {
+            if LOG_LEN < CAP {
+                LOG[LOG_LEN] = data[i];
+            }
+            LOG_LEN += 1;
+            i += 1;
+        }
+    }
+}
+
+// progress discipline (C23): steps start at 1, increase by 1, never exceed a non-zero total
+static mut LAST_STEP: u32 = 0;
+static mut STEP_OK: bool = true;
+fn record_progress(step: u32, total: u32) -> Result<()> {
+    unsafe {
+        if step != LAST_STEP + 1 || step < 1 || (total != 0 && step > total) {
+            STEP_OK = false;
+        }
+        LAST_STEP = step;
+    }
+    Ok(())
+}
+
+// bounded (2 bytes, no ranges): everything is fed, in order
+#[kani::proof]
+#[kani::stub(Hasher::update, stub_update)]
+#[kani::stub(std::sync::mpsc::channel, stub_channel)]
+#[kani::stub(std::thread::Builder::spawn, stub_spawn)]
+#[kani::stub(sp::catch_unwind, stub_catch)]
+#[kani::stub(std::sync::mpsc::Sender::send, stub_send)]
+#[kani::stub(std::sync::mpsc::Receiver::recv, stub_recv)]
+#[kani::stub(Hasher::finalize, stub_finalize)]
+#[kani::unwind(3)]
+fn c13_no_range_hashes_everything() {
+    let data: [u8; 2] = kani::any();
+    let mut cur = Cursor::new(&data[..]);
+    let res = hash_stream_by_alg_with_progress_impl("sha256", &mut cur, None, true, &mut record_progress, NonZeroUsize::new(1 << 20).unwrap());
+    assert!(res.is_ok(), "non-empty data without ranges hashes");
+    unsafe {
+        assert!(LOG_LEN == 2 && LOG[0] == data[0] && LOG[1] == data[1], "exactly the data bytes are fed, in order");
+        assert!(STEP_OK, "progress steps positive, increasing, within total");
+    }
+    std::mem::forget(res);
+}
+
+// bounded (<= 3 data bytes) but the range is UNCONSTRAINED in u64 x u64: inclusion mode is what box hashing uses.
+// exactness, rejection past the end, no arithmetic overflow / panic for any start and length
+#[kani::proof]
+#[kani::stub(Hasher::update, stub_update)]
+#[kani::stub(std::sync::mpsc::channel, stub_channel)]
+#[kani::stub(std::thread::Builder::spawn, stub_spawn)]
+#[kani::stub(sp::catch_unwind, stub_catch)]
+#[kani::stub(std::sync::mpsc::Sender::send, stub_send)]
+#[kani::stub(std::sync::mpsc::Receiver::recv, stub_recv)]
+#[kani::stub(Hasher::finalize, stub_finalize)]
+#[kani::unwind(4)]
+fn c13_inclusion_one_range() {
+    let data: [u8; 3] = kani::any();
+    let len: usize = kani::any();
+    kani::assume(len >= 1 && len <= 3);
+    let mut cur = Cursor::new(&data[..len]);
+    let s1: u64 = kani::any();
+    let l1: u64 = kani::any();
+    let hr = vec![HashRange::new(s1, l1)];
+    let res = hash_stream_by_alg_with_progress_impl("sha256", &mut cur, Some(hr), false, &mut record_progress, NonZeroUsize::new(1 << 20).unwrap());
+    let past_end = s1 as u128 + l1 as u128 > len as u128;
+    if past_end {
+        assert!(res.is_err(), "a range reaching past the end of the data is rejected");
+    }
+    if res.is_ok() {
+        let mut k = 0usize;
+        let mut i = 0usize;
+        while i < len {
+            let inc = l1 > 0 && (i as u64) >= s1 && ((i as u64) - s1) < l1;
+            if inc {
+                unsafe {
+                    assert!(k < LOG_LEN && LOG[k] == data[i], "every included byte is fed, in order");
+                }
+                k += 1;
+            }
+            i += 1;
+        }
+        unsafe {
+            assert!(k == LOG_LEN, "nothing but the included bytes is fed");
+            assert!(STEP_OK, "progress steps positive, increasing, within total");
+        }
+    }
+    kani::cover!(res.is_ok() && l1 > 0, "an accepted non-empty range exists");
+    kani::cover!(res.is_err(), "a rejected range exists");
+    std::mem::forget(res);
+}
+
+// (exclusion mode under Kani: not possible - even the rejection-only harness makes CBMC unwind range_set/SmallVec and
+// run out of memory (measured: > 60 GB); exclusion mode is decided by the native part below)
+
+// ---------------------------------------------------------------- C13 Engine B: exclusion / inclusion exactness incl. markers
+// Reference semantics from the statement, as the byte string whose digest must result.
+//   exclusion: positions in order; a marker at p contributes p.to_be_bytes() (before byte p); byte p is hashed iff no
+//              non-marker range covers it
+//   inclusion: ranges in order of start (stable); a range's marker offset first, then its bytes; empty ranges nothing
+#[derive(Clone, Debug)]
+struct R {
+    start: u64,
+    len: u64,
+    marker: Option<u64>,
+}
+fn reference(data: &[u8], rs: &[R], exclusion: bool) -> Option<Vec<u8>> {
+    let n = data.len() as u128;
+    if n == 0 {
+        return None;
+    }
+    for r in rs {
+        if r.start as u128 + r.len as u128 > n {
+            return None;
+        }
+    }
+    let mut out = Vec::new();
+    if exclusion {
+        for p in 0..data.len() {
+            if rs.iter().any(|r| r.marker == Some(p as u64)) {
+                out.extend_from_slice(&(p as u64).to_be_bytes());
+            }
+            let ex = rs.iter().any(|r| r.marker.is_none() && r.len > 0 && (p as u64) >= r.start && (p as u64) < r.start + r.len);
+            if !ex {
+                out.push(data[p]);
+            }
+        }
+    } else {
+        let mut v: Vec<&R> = rs.iter().collect();
+        v.sort_by_key(|r| r.start);
+        for r in v {
+            if r.len == 0 {
+                continue;
+            }
+            if let Some(m) = r.marker {
+                out.extend_from_slice(&m.to_be_bytes());
+            }
+            out.extend_from_slice(&data[r.start as usize..(r.start + r.len) as usize]);
+        }
+    }
+    Some(out)
+}
+
+fn to_hash_ranges(rs: &[R]) -> Vec<HashRange> {
+    rs.iter()
+        .map(|r| {
+            let mut h = HashRange::new(r.start, r.len);
+            if let Some(m) = r.marker {
+                h.set_bmff_offset(m);
+            }
+            h
+        })
+        .collect()
+}
+
+fn classify_exclusion(data_len: usize, rs: &[R], past_end_case: bool) -> &'static str {
+    if past_end_case {
+        return "hash_range.past_end_accepted";
+    }
+    let excluded = |p: u64| rs.iter().any(|r| r.marker.is_none() && r.len > 0 && p >= r.start && p < r.start + r.len);
+    let is_marker = |p: u64| rs.iter().any(|r| r.marker == Some(p));
+    let included: Vec<u64> = (0..data_len as u64).filter(|p| !excluded(*p)).collect();
+    for r in rs {
+        if let Some(m) = r.marker {
+            if !excluded(m) && (m + 1 == data_len as u64 || excluded(m + 1) || is_marker(m + 1)) {
+                return "hash_range.marker.single_byte_range_at_marker";
+            }
+        }
+    }
+    for r in rs {
+        if let Some(m) = r.marker {
+            if excluded(m) && (included.is_empty() || m < included[0] || m > *included.last().unwrap_or(&0)) {
+                return "hash_range.marker.outside_included_span";
+            }
+        }
+    }
+    "hash_range.digest_mismatch"
+}
+
+fn eval_case(data: &[u8], rs: &[R], exclusion: bool, alg: &str, buf: usize, counts: &mut std::collections::BTreeMap<String, usize>) {
+    let expect = reference(data, rs, exclusion);
+    let hr = to_hash_ranges(rs);
+    let mut cur = Cursor::new(data);
+    let got = std::panic::catch_unwind(std::panic::AssertUnwindSafe(|| {
+        hash_stream_by_alg_with_progress_impl(alg, &mut cur, Some(hr), exclusion, &mut |_, _| Ok(()), NonZeroUsize::new(buf).unwrap())
+    }));
+    let key: Option<String> = match (got, expect) {
+        (Err(_), _) => Some("hash_range.panic".to_string()),
+        (Ok(Err(_)), None) => None,
+        (Ok(Ok(_)), None) => Some(if data.is_empty() { "hash_range.empty_data_accepted".to_string() } else { "hash_range.past_end_accepted".to_string() }),
+        (Ok(Err(_)), Some(_)) => Some("hash_range.valid_ranges_rejected".to_string()),
+        (Ok(Ok(d)), Some(bytes)) => {
+            let mut h = Hasher::new(alg).unwrap();
+            h.update(&bytes);
+            if Hasher::finalize(h) == d {
+                None
+            } else if exclusion {
+                Some(classify_exclusion(data.len(), rs, false).to_string())
+            } else if rs.iter().any(|r| r.len == 1 && rs.iter().any(|q| q.len > 0 && q.marker == Some(r.start))) {
+                Some("hash_range.marker.single_byte_range_at_marker".to_string())
+            } else {
+                Some("hash_range.digest_mismatch".to_string())
+            }
+        }
+    };
+    if let Some(k) = key {
+        let c = counts.entry(k.clone()).or_insert(0);
+        *c += 1;
+        if *c <= 3 {
+            println!("VERIF-B-VIOLATION key={k} input=data_len={} ranges={:?} exclusion={exclusion} alg={alg} buf={buf}", data.len(), rs);
+        }
+    }
+}
+
+#[test]
+fn c13_range_hash_exact_small_domain() {
+    let thorough = std::env::var("VERIF_B_TIER").map(|t| t == "thorough").unwrap_or(false);
+    let max_len: usize = if thorough { 7 } else { 5 };
+    let vals: Vec<u64> = (0..=(max_len as u64 + 1)).collect();
+    let extremes: [u64; 3] = [1 << 32, 1 << 63, u64::MAX];
+    let algs: &[&str] = if thorough { &["sha256", "sha384", "sha512"] } else { &["sha256"] };
+    let bufs: &[usize] = if thorough { &[1, 2, 3, 1 << 20] } else { &[1, 1 << 20] };
+    let mut counts = std::collections::BTreeMap::new();
+    let mut evals = 0usize;
+    let mut nontrivial = 0usize;
+    for len in 0..=max_len {
+        let data: Vec<u8> = (0..len as u8).map(|i| i.wrapping_mul(37).wrapping_add(11)).collect();
+        // candidate single ranges
+        let mut singles: Vec<R> = Vec::new();
+        for &s in vals.iter().chain(extremes.iter()) {
+            for &l in vals.iter().chain(extremes.iter()) {
+                singles.push(R { start: s, len: l, marker: None });
+            }
+        }
+        let markers: Vec<Option<u64>> = std::iter::once(None).chain((0..len as u64).map(Some)).collect();
+        for exclusion in [true, false] {
+            for (i, a) in singles.iter().enumerate() {
+                for b in singles.iter().skip(if thorough { 0 } else { i }).step_by(if thorough { 1 } else { 3 }).chain(std::iter::once(&R { start: 0, len: 0, marker: None })) {
+                    for m in &markers {
+                        let mut rs = vec![a.clone(), b.clone()];
+                        if let Some(mo) = m {
+                            if exclusion {
+                                rs.push(R { start: *mo, len: 1, marker: Some(*mo) });
+                            } else {
+                                // inclusion: the marker rides on the first non-empty in-range range
+                                if rs[0].len > 0 {
+                                    rs[0].marker = Some(*mo);
+                                } else {
+                                    continue;
+                                }
+                            }
+                        }
+                        for alg in algs {
+                            for &buf in bufs {
+                                evals += 1;
+                                if rs.iter().any(|r| r.len > 0 && (r.start as u128 + r.len as u128) <= len as u128) {
+                                    nontrivial += 1;
+                                }
+                                eval_case(&data, &rs, exclusion, alg, buf, &mut counts);
+                            }
+                        }
+                    }
+                }
+            }
+        }
+    }
+    // two markers, exclusion mode (marker/marker and marker/range interaction)
+    for len in 2..=max_len {
+        let data: Vec<u8> = (0..len as u8).map(|i| i.wrapping_mul(37).wrapping_add(11)).collect();
+        for s in 0..len as u64 {
+            for l in 0..=(len as u64 - s) {
+                for m1 in 0..len as u64 {
+                    for m2 in (m1 + 1)..len as u64 {
+                        let rs = vec![R { start: s, len: l, marker: None }, R { start: m1, len: 1, marker: Some(m1) }, R { start: m2, len: 1, marker: Some(m2) }];
+                        evals += 1;
+                        nontrivial += 1;
+                        eval_case(&data, &rs, true, "sha256", 1 << 20, &mut counts);
+                    }
+                }
+            }
+        }
+    }
+    println!("VERIF-B-SAMPLE data_len=5 ranges=[(1,2),(4,1)] exclusion -> reference bytes {:?}", reference(&[11, 48, 85, 122, 159], &[R { start: 1, len: 2, marker: None }, R { start: 4, len: 1, marker: None }], true));
+    println!("VERIF-B-SAMPLE violation classes this run: {:?}", counts);
+    println!("VERIF-B unit=hash_utils test=c13_range_hash_exact_small_domain evaluations={evals} nontrivial={nontrivial} exhaustive=true domain=data length 0..={max_len} x pairs of ranges with start,len in 0..={} plus u64 extremes {{2^32,2^63,2^64-1}} x optional marker at every offset (and all marker pairs) x exclusion/inclusion x algs {:?} x read-buffer sizes {:?}", max_len + 1, algs, bufs);
+}
